@@ -154,6 +154,8 @@ def make_history(r, nsteps=None):
                   'dicts': dicts, 'inject': draw_inject(r)}
             if dicts == 'seeded':
                 op['seed_consts'] = {r.choice(K): r.randint(0, 2000)} if r.random() < 0.7 else {'SEEDED': 5}
+                if r.random() < 0.3:
+                    op['seed_labels'] = {r.choice(L): r.randrange(0, 64, 4)}
             ops.append(op)
             if pool[i]['kind'].startswith('fail-') and pool[i]['is_path'] and r.random() < 0.5:
                 # the edit-compile cycle: the call fails, the user repairs the line (and touches two immediates), assembles again
@@ -276,6 +278,8 @@ def call_of(scen, op, shared_inc_obj):
         call['pass_dicts'] = False
     elif op['dicts'] == 'seeded':
         call['constants'] = dict(op.get('seed_consts') or {})
+        if op.get('seed_labels'):
+            call['labels'] = dict(op['seed_labels'])
     return call
 
 
